@@ -1,5 +1,6 @@
 import VaxisModel.Model.WrapHeap
 import VaxisModel.Lemmas.WrapHeap
+import VaxisModel.Lemmas.Wrap
 
 /-! C16, aliasing (round 3).  The value-level model of the scanners (`Model.Wrap`) is heap-free: a
 text is a list, a line is a list, so "the scanner does not write into the caller's cells" and "a line
@@ -129,6 +130,42 @@ theorem scan_loop_refines (grow : Nat → Nat → Nat) (o : List Cell → Nat ×
     ScanRel (scanLoopH grow o width fuel h st w)
       (scanLoop (oracleOf o) () width fuel (read h0 st.rest) () (read h st.token) w) :=
   scanLoopH_refines grow o width h0 n0 hn0 fuel h st w hn hfr hra wr gt wt
+
+/-- `Scan()` itself (entry test, `s.token = []vaxis.Cell{}`, the loop) refines `Model.Wrap.scan`: returns false,
+hangs or returns a line exactly when the model does, with `s.rest` / `s.token` denoting the model's lists. -/
+theorem scan_refines (grow : Nat → Nat → Nat) (o : List Cell → Nat × Bool) (width : Nat) (h : Heap) (st : St)
+    (hra : st.rest.arr < h.length) (wr : WFS h st.rest) :
+    ScanRelS (scanH grow o width h st) (scan (oracleOf o) () width (read h st.rest) ()) :=
+  scanH_refines grow o width h st hra wr
+
+/-- **`richtext.SoftwrapScanner` on the heap, end to end**: for every text, every spare capacity behind the
+caller's slice, every width, every pairwise break function and every growth policy of `append`, the iteration
+`for scanner.Scan() { lines = append(lines, scanner.Text()) }` — with a caller that keeps the returned slices
+*without copying* and reads them after the last `Scan` — yields **exactly the lines of the value-level model**
+`Model.Wrap.richLines` (the model of all the C16 theorems), and leaves the caller's array, spare capacity
+included, as it was.  The heap-free semantics of `Model.Wrap` is therefore sound for the code: no aliasing
+effect can make the real scanner's lines differ from it. -/
+theorem rich_scanner_on_the_heap (grow : Nat → Nat → Nat) (lb : Nat → Nat → Bool) (width : Nat)
+    (cells spare : List Cell) :
+    ∃ ls, richLines lb width cells = .ok ls ∧ runH grow (richSeg lb) width cells spare = some (ls, cells ++ spare) := by
+  have he : oracleOf (richSeg lb) = richOracle lb := by
+    funext u l
+    cases u
+    rfl
+  have R := runH_refines grow (richSeg lb) width cells spare
+  rw [he] at R
+  obtain ⟨ls, hls, _⟩ := VaxisModel.Lemmas.Wrap.scanAll_ok (richOracle lb) () width (VaxisModel.Lemmas.Wrap.richOracle_ok lb)
+    (cells.length + 1) cells () (Nat.lt_succ_self _)
+  have hl : lines (richOracle lb) () width cells () = .ok ls := hls
+  refine ⟨ls, hl, ?_⟩
+  rw [hl] at R
+  cases hr : runH grow (richSeg lb) width cells spare with
+  | none => rw [hr] at R; simp at R
+  | some res =>
+    rw [hr] at R
+    obtain ⟨a, b⟩ := res
+    simp only [] at R
+    rw [R.1, R.2]
 
 /-- Non-vacuity: "a\nb" — the first `Scan` returns the line "a" in a new array, leaves `cells = "b"` as a
 sub-slice of the caller's array, and the caller's array is what it was. -/
